@@ -213,7 +213,11 @@ class Spec:
             t = self.eff_threshold(None)
             return t is None or t < 1 or t <= self.n
         if s == "bayesian":
-            return self.eff_threshold(DOC_MAJORITY) <= Fraction(1, 2)
+            # up to the 1/2 prior always; beyond it when one permit carries enough evidence (gain x confidence x weight
+            # = x <= 1/2 lifts the posterior to at least 1/2 + x when nobody blocks)
+            t = self.eff_threshold(DOC_MAJORITY)
+            return t <= Fraction(1, 2) or any(t < Fraction(1, 2) + min(Fraction(1, 2), DOC_GAIN * c * w)
+                                              for (_, c, w) in self.P if c * w > 0)
         return self.eff_threshold(DOC_MAJORITY if s != "supermajority" else DOC_SUPERMAJORITY) < 1
 
     def supported(self):
@@ -1019,9 +1023,11 @@ class C06(Prop):
                                  f"not reached: {st[0]} criterion not met (permit={len(sp.P)} block={len(sp.B)} "
                                  f"score/threshold={sp.score_and_threshold()} need={sp.need() if st[0]=='threshold' else '-'})",
                                  o, idx))
-        # unanimous permit with at least the minimum voters is PERMIT (attainable criterion, supported)
-        if sp.n >= 1 and len(sp.P) == sp.n and sp.n >= sp.min_voters and sp.attainable() and sp.supported() \
-                and not reached:
+        # unanimous permit with at least the minimum voters is PERMIT (attainable criterion, supported): every voter
+        # who takes a side permits; abstaining / deferring / failed voters may be present, except under the count
+        # strategy, whose count is a share of the whole colony
+        if sp.P and not sp.B and len(sp.P) >= sp.min_voters and (st[0] != "threshold" or len(sp.P) == sp.n) \
+                and sp.attainable() and sp.supported() and not reached:
             out.append(Violation("unanimous_permit_is_permit", "PERMIT", o, idx))
         # any block defeats UNANIMOUS
         if st[0] == "unanimous" and sp.B and reached:
